@@ -36,5 +36,6 @@
 #define IMPLIES(a, b) (!(a) || (b))
 
 typedef struct { ptrdiff_t x, y; } point_t;
+#define POINT2(a, b) {(a), (b)}          /* R12: point_t p(a, b); -> point_t p = POINT2(a, b); */
 
 #endif
